@@ -8,6 +8,10 @@ CLAIMED = {
   "text": "Unbounded theorems in Lean 4: decode(encode v) = v (up to Int64(0)->UInt64(0) and NaN canonicalisation) for every value of any shape and depth within the format's field widths, re-encode identity, injectivity, shortest number widths, and the reserve-and-patch Encoder model writes exactly the README layout written as a pure spec function. The encoder/decoder models are tied to ser.rs/de.rs/number.rs by the correspondence check; the README layout and the round trip are additionally evaluated on the real code (oracle ops).",
   "note": "Trusted: Lean kernel + {propext, Classical.choice, Quot.sound}; constants translator; line-protocol glue; the sampled correspondence between the hand-written Encoder/Decoder/Number models and the Rust code. Domain hypothesis `goodTop` = field widths of the format (count < 2^29, nested payload < 2^28 bytes), valid UTF-8, sorted unique keys (BTreeMap).",
  },
+ "C05": {
+  "text": "Byte-level Lean models of every accessor (same running jentry/value/key offsets as functions.rs and iterator.rs, slices that can panic made explicit) and tree-level spec functions. Proved, unbounded: iterate_array/iterate_object_entries on the README layout yield exactly the members; get_jentry_by_index lands on the sum of earlier payload lengths; array_length and get_by_index refine the tree functions for every index and hand back canonical documents. All other accessors (get_by_name incl. ignore-case, key paths with negative indices, keys, each, values, type_of, casts, key existence, string traversal) are tied by correspondence (model vs Rust) and decided by the spec oracle (tree answer vs Rust) over all indices, all keys with case variants and prefixes, and key paths drawn from the document.",
+  "note": "Refinement theorems exist for array_length and get_by_index only so far; for the other accessors the claim rests on the sampled oracle, not on a theorem (listed as not_yet_proved in the evidence). to_f64/to_str on floats depend on ryu / str::parse, modelled (parseF64 validated against Rust by the strf64 op).",
+ },
  "C10": {
   "text": "Theorem: for every byte string (and every fuel) the decoder model reaches no panic site; valid encodings decode without running out of fuel. The model mirrors de.rs/number.rs call by call with every unwrap/index/assert as an explicit panic outcome; correspondence runs truncations, bit flips, substitutions, insert/delete, rewritten count/type/length words and random bytes through parse_jsonb and the model. Any panic of the real code is reported as a violation.",
   "note": "Three genuine defects were repaired first (fix: commits 62e309b, 3f3a454, 5f197fa). Still to be proved: UTF-8 of returned strings (checked by correspondence now), prefix rejection, text fallback of from_slice (needs the JSON parser model).",
